@@ -425,6 +425,18 @@ def p3(prog: Program, chk: Check, timers) -> None:
             path = g2.find_path(starts, lambda x: x in arm, edge_ok=lambda a, b, l:
                                 _compatible_with_stop(g2, a, l, flag, stop_val))
             under = _under_lock(u, c, lock)
+            # (iv) the armed timer is cancelled before a new one is stored
+            arm_store = [n.id for n in g2.nodes if n.kind == "stmt" and isinstance(n.ast, ast.Assign)
+                         and n.ast.value is c]
+            cancels = {n.id for n in g2.nodes
+                       if any((method_call(x) or ("", ""))[1] == "cancel" and
+                              (method_call(x) or ("", ""))[0][5:] in fields for x in n.calls())}
+            pc = g2.find_path([g2.entry], lambda x: x in arm_store, blocked=lambda x: x in cancels)
+            chk.add("P3", u, f"{u.name}(): previous timer cancelled before a new one is armed",
+                    pc is None and bool(arm_store),
+                    "" if pc is None else
+                    "a new timer is stored while the previous one may still be armed: the old "
+                    "timer fires later and re-arms without ever being cancelled", c)
             ok = path is None and under
             chk.add("P3", u, f"{u.name}(): arming guarded by stop flag", ok,
                     f"arming is unreachable while self.{flag} == {stop_val}" if ok else
